@@ -1,6 +1,7 @@
 package props
 
 import (
+	"bytes"
 	"fmt"
 	"net/http"
 	"net/http/httptest"
@@ -19,7 +20,32 @@ import (
 
 var c02Outcomes = []string{"cacheable", "uncacheable", "error", "deadline", "panic"}
 
+// Second outcome family: an origin that accepts the request and never answers (the fetch then ends only
+// through the location's proxy timeout, which pike hands to the upstream as a context deadline: with a
+// deadline the scripted origin answers "deadline exceeded", without one it really blocks forever), and a
+// cacheable answer whose gzip body is corrupt.
+var c02HangOutcomes = []string{"cacheable", "hung-origin", "corrupt-gzip"}
+
+var c02Never = make(chan struct{})
+
+func c02RespondHang(oc *env.OriginCall) env.OriginResp {
+	switch c02HangOutcomes[vsched.Choose(len(c02HangOutcomes))] {
+	case "cacheable":
+		return env.Cacheable(oc, 1, "p")
+	case "hung-origin":
+		if _, ok := oc.Ctx.Deadline(); ok {
+			return env.OriginResp{Err: env.ProxyError(env.ErrDeadline)}
+		}
+		vsched.RecvStruct(c02Never) // no timeout was configured for this request: nothing ever ends the fetch
+		return env.OriginResp{Err: env.ProxyError(env.ErrDeadline)}
+	default:
+		junk := bytes.Repeat([]byte("not a gzip stream "), 80)
+		return env.OriginResp{Status: 200, Header: http.Header{"Cache-Control": {"max-age=1"}, "Content-Type": {"text/plain"}, "Content-Encoding": {"gzip"}}, Body: junk}
+	}
+}
+
 type c02Params struct {
+	Hang    bool // second outcome family, location with a sub-second proxy timeout, clients accept gzip
 	Name    string
 	Threads int
 	Reqs    int
@@ -43,7 +69,7 @@ func c02Respond(oc *env.OriginCall) env.OriginResp {
 }
 
 // postCheck: key not left fetching, no parked channel, epilogue request served normally.
-func c02Post(e *env.Env, cacheName string, uri string) *vsched.Violation {
+func c02Post(e *env.Env, cacheName string, uri string, bodies bool, hdr http.Header) *vsched.Violation {
 	d := cache.GetDispatcher(cacheName)
 	key := []byte("GET a.com " + uri)
 	if hc, ok := d.VerifPeek(key); ok {
@@ -59,37 +85,49 @@ func c02Post(e *env.Env, cacheName string, uri string) *vsched.Violation {
 	e.Respond = func(oc *env.OriginCall) env.OriginResp { return env.Cacheable(oc, 1, "epi") }
 	defer func() { e.Respond = save }()
 	for i := 0; i < 2; i++ {
-		r := e.Do(env.Req{URI: uri, Rid: fmt.Sprintf("epi%d", i)})
+		r := e.Do(env.Req{URI: uri, Rid: fmt.Sprintf("epi%d", i), Header: hdr})
 		if r.Status != 200 {
 			return &vsched.Violation{Sig: "epilogue-not-served", Msg: fmt.Sprintf("request after the run answered %d %s", r.Status, trunc(r.Body))}
 		}
 	}
 	an := analyze(e.Events())
-	if v := an.selfCheck(); v != nil {
-		return v
+	if bodies {
+		if v := an.selfCheck(); v != nil {
+			return v
+		}
 	}
 	return an.labelTruth()
 }
 
 func c02Scenario(c *Ctx, p c02Params) Sched {
 	cfg := env.BasicConfig(config.CacheConfig{})
+	envName := "basic"
+	var hdr http.Header
+	if p.Hang {
+		cfg.Locations[0].ProxyTimeout = "500ms"
+		envName = "c02-timeout"
+		hdr = http.Header{"Accept-Encoding": {"gzip"}}
+	}
 	return Sched{
 		Name:   p.Name,
 		Opt:    vsched.Options{},
 		Bounds: p.Bounds,
 		Setup: func() ([]func(), func(*vsched.Exec) *vsched.Violation, func() string) {
-			e := getEnv(cfg, "basic")
+			e := getEnv(cfg, envName)
 			freshCaches(cfg)
 			vtime.Set(vtime.Base)
 			vsched.ClockStart = vtime.Base
 			e.Respond = c02Respond
+			if p.Hang {
+				e.Respond = c02RespondHang
+			}
 			e.Events()
 			var bodies []func()
 			for i := 0; i < p.Threads; i++ {
 				i := i
 				bodies = append(bodies, func() {
 					for j := 0; j < p.Reqs; j++ {
-						e.Do(env.Req{URI: "/k1", Rid: fmt.Sprintf("t%d.%d", i, j)})
+						e.Do(env.Req{URI: "/k1", Rid: fmt.Sprintf("t%d.%d", i, j), Header: hdr})
 					}
 				})
 			}
@@ -117,17 +155,19 @@ func c02Scenario(c *Ctx, p c02Params) Sched {
 					if r.Status == 200 {
 						continue
 					}
-					if len(ri.Calls) == 0 {
+					if len(ri.Calls) == 0 && !p.Hang { // (a waiter handed a corrupt body may answer 5xx)
 						return &vsched.Violation{Sig: fmt.Sprintf("waiter-status-%d", r.Status), Msg: fmt.Sprintf("request %s got %d %s without contacting the origin itself", rid, r.Status, trunc(r.Body))}
 					}
 				}
-				if v := an.selfCheck(); v != nil {
-					return v
+				if !p.Hang {
+					if v := an.selfCheck(); v != nil {
+						return v
+					}
 				}
 				if v := an.labelTruth(); v != nil {
 					return v
 				}
-				return c02Post(e, "c1", "/k1")
+				return c02Post(e, "c1", "/k1", !p.Hang, hdr)
 			}
 			return bodies, check, func() string { return an.summary() }
 		},
@@ -239,6 +279,7 @@ func init() {
 		c.RunSched(c02Scenario(c, c02Params{Name: "outcomes3", Threads: 3, Reqs: 1, Bounds: b}))
 		c.RunSched(c02Scenario(c, c02Params{Name: "outcomes2-purge", Threads: 2, Reqs: 1, Purge: true, Bounds: b}))
 		c.RunSched(c02Scenario(c, c02Params{Name: "outcomes2x2", Threads: 2, Reqs: 2, Bounds: b2}))
+		c.RunSched(c02Scenario(c, c02Params{Name: "hung-origin3", Hang: true, Threads: 3, Reqs: 1, Bounds: b}))
 		c.RunSched(c02Core(c, "core-next-outcomes3", 3, b))
 		c.RunSched(c02Scenario(c, c02Params{Name: "cacheable3-purge", Threads: 3, Reqs: 1, Purge: true, Bounds: vsched.Bounds{Preempt: 2, Tick: 1, Data: 0, Total: 2}}))
 		if c.Thorough() {
